@@ -6,7 +6,7 @@
 (* record: which laws the record triggers and whether each holds is decided by the         *)
 (* operators of SkyGeom.tla.  State i = 0 checks the minimum number of triggered           *)
 (* instances of every law and class (non-vacuity of the whole history).                    *)
-(* Record kinds: gc | rt | iso | nu0 | stripe | vec | unch | shape.                               *)
+(* Record kinds: gc | rt | iso | nu0 | stripe | vec | unch | shape | form.                               *)
 EXTENDS SkyGeom, Json, IOUtils, TLC
 Recs == JsonDeserialize(IOEnv.VERIF_TRACE)
 MinPer == atoi(IOEnv.VERIF_MINPER)       \* required instances per class
@@ -27,6 +27,7 @@ Laws(r) ==
     [] r.kind = "vec" -> {"AnglesVectorsInverse"}
     [] r.kind = "unch" -> {"CallerObjectUnchanged"}
     [] r.kind = "shape" -> {"ArrayEqualsScalars"}
+    [] r.kind = "form" -> {"FormIndependent"}
     [] OTHER -> {}
 
 Failing(r) ==
@@ -42,6 +43,7 @@ Failing(r) ==
     [] r.kind = "vec" -> IF VecHolds(r) THEN {} ELSE {"AnglesVectorsInverse"}
     [] r.kind = "unch" -> IF CallerObjectUnchanged(r) THEN {} ELSE {"CallerObjectUnchanged " \o r.fn}
     [] r.kind = "shape" -> IF ArrayEqualsScalars(r) THEN {} ELSE {"ArrayEqualsScalars " \o r.fn \o " " \o ShapeClass(r.shape)}
+    [] r.kind = "form" -> IF FormIndependent(r) THEN {} ELSE {"FormIndependent " \o r.fn \o " " \o r.form}
     [] OTHER -> {"unknown record kind"}
 
 (* the named deviation of SkyGeom.tla (if any) that admits a rejected record exactly *)
@@ -83,6 +85,12 @@ Shortfalls ==
            Count(LAMBDA r : r.kind = "rt" /\ r.dir = x /\ r.array /\ r.use >= 1) < MinPer}}
   \cup (IF Count(LAMBDA r : r.kind = "rt" /\ r.array /\ r.use >= 2) < MinPer THEN {"RoundTrip of an array object used more than twice"} ELSE {})
   \cup (IF Count(LAMBDA r : r.kind = "rt" /\ ~r.array /\ r.use >= 1) < MinPer THEN {"RoundTrip of a reused scalar object"} ELSE {})
+  (* every function is called with 8-bit, 16-bit and wide integer arguments (arrays and scalars where it takes them) *)
+  \cup {"FormIndependent " \o x[1] \o " " \o x[2] : x \in {y \in FormFns \X {"8bit", "16bit", "wide"} :
+           Count(LAMBDA r : r.kind = "form" /\ r.fn = y[1] /\ FormClass(r.form) = y[2]) < MinPer}}
+  \cup {"FormIndependent scalars " \o f : f \in {y \in {"gcirc", "stripe_to_eta", "stripe_to_incl"} :
+           Count(LAMBDA r : r.kind = "form" /\ r.fn = y /\ ~r.arr) < MinPer}}
+  \cup (IF Count(LAMBDA r : r.kind = "form" /\ r.fn = "gcirc" /\ r.form = "pyint") < MinPer THEN {"FormIndependent gcirc Python int"} ELSE {})
   (* every function is called on every shape class its interface admits *)
   \cup {"ArrayEqualsScalars " \o x[1] \o " " \o x[2] : x \in {y \in CallerFns \X {"1d", "unit-dim", "lead3", "2d", "3d"} :
            /\ y[2] \in ShapeClassesOf(y[1])
@@ -99,7 +107,9 @@ Shortfalls ==
            <<d, l, p>> \in {x \in {"a2x2a", "x2a2x"} \X BOOLEAN \X BOOLEAN :
                Count(LAMBDA r : r.kind = "vec" /\ r.dir = x[1] /\ r.latitude = x[2] /\ r.polar = x[3]) < MinPer}}
 
-Init == /\ i \in 0..N
+(* VERIF_NOCOUNTS: judge the records only (used by the binding self-test, whose records are falsified on purpose) *)
+First == IF "VERIF_NOCOUNTS" \in DOMAIN IOEnv THEN 1 ELSE 0
+Init == /\ i \in First..N
         /\ trig = IF i = 0 THEN {} ELSE Laws(Recs[i])
         /\ ok = IF i = 0 THEN Shortfalls = {} ELSE Failing(Recs[i]) = {}
         /\ why = IF i = 0 THEN Join(Shortfalls) ELSE Join(Failing(Recs[i]))
